@@ -22,10 +22,19 @@ type c03Params struct {
 	LongLn  bool     // line 1 is ~5000 bytes (longer than the 4096-byte read buffer)
 	Yields  int      // scheduling points inside each handler between enter and exit
 	SleepMs int      // virtual sleep inside handlers (handler "duration")
+	ChanCap int      // 0 = the real queue capacity (32); 2 = capacity-scaled queues, so that a handful of lines is a backlog
 }
 
 func (p c03Params) name() string {
-	return fmt.Sprintf("order/verbs=%s/end=%s/cuts=%v/segs=%s/long=%v/y=%d/sl=%d", strings.Join(p.Verbs, ","), p.End, p.Cuts, p.Segs, p.LongLn, p.Yields, p.SleepMs)
+	v := strings.Join(p.Verbs, ",")
+	if len(p.Verbs) > 8 {
+		v = fmt.Sprintf("%dx(%s)", len(p.Verbs), strings.Join(p.Verbs[:4], ","))
+	}
+	n := fmt.Sprintf("order/verbs=%s/end=%s/cuts=%v/segs=%s/long=%v/y=%d/sl=%d", v, p.End, p.Cuts, p.Segs, p.LongLn, p.Yields, p.SleepMs)
+	if p.ChanCap != 0 {
+		n += fmt.Sprintf("/cap=%d", p.ChanCap)
+	}
+	return n
 }
 
 func c03Lines(p c03Params) []string {
@@ -57,8 +66,10 @@ func c03Scenario(p c03Params) *explore.Scenario {
 		Family: "order",
 		Name:   p.name(),
 		Params: map[string]interface{}{"verbs": strings.Join(p.Verbs, ","), "end": p.End, "cuts": p.Cuts, "segs": p.Segs, "long": p.LongLn},
-		Opt:    vx.Options{MaxSteps: 40000, Horizon: time.Minute},
+		Opt:    vx.Options{MaxSteps: 40000 + 4000*len(p.Verbs), Horizon: time.Minute, ChanCap: p.ChanCap},
 	}
+	sc.Params["chancap"] = p.ChanCap
+	sc.Params["sleep_ms"] = p.SleepMs
 	sc.Main = func(env *vx.Env) {
 		c := NewClient("me", nil)
 		body := func(kind, h string) client.HandlerFunc {
@@ -192,6 +203,7 @@ func c03Oracle(p c03Params, ev []string) []explore.Finding {
 	bgEnters := make([]int, n)
 	open := map[int]int{} // line -> fg handlers currently inside
 	maxEntered := -1
+	perHandler := map[string]int{} // "line handler" -> foreground entries
 	welcomeLine := -1
 	for i, v := range p.Verbs {
 		if v == "001" && welcomeLine < 0 {
@@ -230,6 +242,9 @@ func c03Oracle(p c03Params, ev []string) []explore.Finding {
 			}
 			open[s]++
 			enters[s]++
+			if len(f) > 2 {
+				perHandler[fmt.Sprintf("%d %s", s, f[2])]++
+			}
 		case "fg-exit":
 			var s int
 			fmt.Sscan(f[1], &s)
@@ -265,6 +280,15 @@ func c03Oracle(p c03Params, ev []string) []explore.Finding {
 	}
 	for i, v := range p.Verbs {
 		want := fgHandlers(v)
+		for _, h := range []string{"h1", "h2"}[:want] {
+			k := perHandler[fmt.Sprintf("%d %s", i, h)]
+			if k > 1 {
+				bad("duplicate-delivery", fmt.Sprintf("line %d was delivered %d times to foreground handler %s", i, k, h))
+			}
+			if k == 0 && p.End == "quiet-eof" {
+				bad("lost-delivery", fmt.Sprintf("line %d never reached foreground handler %s (connection was idle before it ended)", i, h))
+			}
+		}
 		if enters[i] > want {
 			bad("duplicate-delivery", fmt.Sprintf("line %d was delivered %d times to %d foreground handlers", i, enters[i], want))
 		}
@@ -293,7 +317,7 @@ func c03Oracle(p c03Params, ev []string) []explore.Finding {
 func init() {
 	Register(&Prop{
 		ID:   "C03",
-		Rule: "every execution, within the deviation budgets (K scheduling deviations incl. select-case choices, E read-cut deviations = partitions of the byte stream), of sessions of 3-4 numbered lines over verbs {PRIVMSG,NOTICE,001,PING,FOO} with 1-2 foreground handlers per verb, a background handler, handler bodies with 0-2 scheduling points or a virtual sleep; scenario A ends after quiescence, scenario B's EOF/Close/cancel races with delivery; distinct = distinct canonical observation (enter/exit log + transcript)",
+		Rule: "every execution, within the deviation budgets (K scheduling deviations incl. select-case choices, E read-cut deviations = partitions of the byte stream), of sessions of 3-4 numbered lines over verbs {PRIVMSG,NOTICE,001,PING,FOO} with 1-2 foreground handlers per verb, a background handler, handler bodies with 0-2 scheduling points or a virtual sleep, plus backlog sessions: 45 lines in one segment with 5 ms handlers (more than the 32-slot receive queue holds) and 7 lines over capacity-scaled queues (2 slots); scenario A ends after quiescence, scenario B's EOF/Close/cancel races with delivery; distinct = distinct canonical observation (enter/exit log + transcript)",
 		Assumptions: []string{
 			"interleavings at synchronisation/channel/socket/timer granularity (DESIGN.md 3.8); 'all handler durations' and GOMAXPROCS 1..16 are subsumed by the interleaving space for data-race-free code",
 			"ordering oracles are stated on the single observation log 'ev', whose records are mutually dependent events",
@@ -331,6 +355,22 @@ func init() {
 				jobs = append(jobs, ExploreJob("C03", ExploreSpec{Sc: c03Scenario(p), Variants: []int{1, 3}, Budgets: cutBudgets, Cache: true}, 20))
 				p = c03Params{Verbs: pat, End: "eof", Segs: "each", Cuts: true, Yields: 1}
 				jobs = append(jobs, ExploreJob("C03", ExploreSpec{Sc: c03Scenario(p), Variants: []int{1, 3}, Budgets: cutBudgets, Cache: true}, 20))
+			}
+			// a backlog: more lines than the receive queue holds (32) while the handlers take their time, and the
+			// same with capacity-scaled queues, where a few lines are a backlog and the schedules can be explored
+			var many []string
+			for i := 0; i < 45; i++ {
+				many = append(many, []string{"PRIVMSG", "NOTICE", "PING", "FOO"}[i%4])
+			}
+			many[20] = "001"
+			for _, end := range []string{"quiet-eof", "eof"} {
+				jobs = append(jobs, ExploreJob("C03", ExploreSpec{Sc: c03Scenario(c03Params{Verbs: many, End: end, Segs: "one", SleepMs: 5}), Variants: []int{1, 2, 3}, Budgets: []explore.Budget{{0, 0}, {1, 0}}, Cache: true}, 60))
+			}
+			six := []string{"PRIVMSG", "NOTICE", "PING", "PRIVMSG", "001", "FOO", "PRIVMSG"}
+			for _, end := range []string{"quiet-eof", "eof", "close"} {
+				for _, sl := range []int{0, 5} {
+					jobs = append(jobs, ExploreJob("C03", ExploreSpec{Sc: c03Scenario(c03Params{Verbs: six, End: end, Segs: "one", SleepMs: sl, Yields: 1, ChanCap: 2}), Variants: []int{1, 2, 3}, Budgets: budgets, Cache: true}, 60))
+				}
 			}
 			// handler duration as virtual sleep; a line longer than the read buffer
 			jobs = append(jobs, ExploreJob("C03", ExploreSpec{Sc: c03Scenario(c03Params{Verbs: patterns[0], End: "quiet-eof", Segs: "one", SleepMs: 500}), Variants: []int{1, 2, 3}, Budgets: []explore.Budget{{0, 0}, {1, 0}, {2, 0}}, Cache: true}, 20))
